@@ -661,6 +661,9 @@ class VAMTransmissionManagement:
         if self.last_vam_generation_delta_time is None:
             self.send_next_vam(vam=vam_to_send)
             return
+        if "time" not in tpv:
+            # A report without a time stamp cannot be placed relative to the last VAM.
+            return
         received_generation_delta_time = GenerationDeltaTime.from_timestamp(
             parser.parse(tpv["time"]).timestamp()
         )
@@ -673,16 +676,18 @@ class VAMTransmissionManagement:
         ):
             self.send_next_vam(vam=vam_to_send)
             return
-        received_position = (tpv["lat"], tpv["lon"])
         if (
-            Utils.euclidian_distance(
-                received_position, self.last_sent_position)
+            "lat" in tpv
+            and "lon" in tpv
+            and Utils.euclidian_distance(
+                (tpv["lat"], tpv["lon"]), self.last_sent_position)
             > vam_constants.MINREFERENCEPOINTPOSITIONCHANGETHRESHOLD
         ):
             self.send_next_vam(vam=vam_to_send)
             return
         if (
-            abs(
+            "speed" in tpv
+            and abs(
                 tpv["speed"]
                 - self.last_vam_speed
             )
